@@ -9,10 +9,14 @@ import sys
 import time
 
 VERIF = os.path.dirname(os.path.dirname(os.path.abspath(__file__)))
-HARNESS = os.path.join(VERIF, "harness")
-WORK = os.path.join(VERIF, "work")
-EVID = os.path.join(VERIF, "evidence")
-REPLAYS = os.path.join(VERIF, "replays")
+# VERIF_ALT (mutation testing only, never used by a registered command): run the same checks against a scratch
+# tree $VERIF_ALT/repo with a copy of the harness, and keep work / evidence / replays under $VERIF_ALT.
+ALT = os.environ.get("VERIF_ALT")
+REPO = os.path.join(ALT, "repo") if ALT else "/repo"
+HARNESS = os.path.join(ALT or VERIF, "harness")
+WORK = os.path.join(ALT or VERIF, "work")
+EVID = os.path.join(ALT or VERIF, "evidence")
+REPLAYS = os.path.join(ALT or VERIF, "replays")
 BIN = os.path.join(HARNESS, "target", "release", "ripverif")
 
 TOOL_ERROR = 2
@@ -34,9 +38,17 @@ def build():
     fcntl.flock(lock, fcntl.LOCK_EX)
     try:
         t0 = time.time()
+        if ALT:
+            subprocess.run(["rsync", "-a", "--delete", "--exclude", "target", "--exclude", "Cargo.lock",
+                            os.path.join(VERIF, "harness") + "/", HARNESS + "/"], check=True)
+            ct = os.path.join(HARNESS, "Cargo.toml")
+            with open(ct) as f:
+                txt = f.read().replace('"/repo/', '"' + REPO + '/')
+            with open(ct, "w") as f:
+                f.write(txt)
         lockfile = os.path.join(HARNESS, "Cargo.lock")
         if not os.path.exists(lockfile):
-            shutil.copy("/repo/Cargo.lock", lockfile)
+            shutil.copy(os.path.join(REPO, "Cargo.lock"), lockfile)
         env = dict(os.environ, CARGO_NET_OFFLINE="true")
         p = subprocess.run(["cargo", "build", "--release", "--offline", "-q"], cwd=HARNESS, env=env,
                            stdout=subprocess.PIPE, stderr=subprocess.STDOUT, text=True)
